@@ -138,8 +138,17 @@ def impl_builtin(case):
     X = np.array(case["X"], dtype=float)
     n, b = case["n"], case["b"]
     try:
-        det = MW(_mk_score(case["score"]), bandwidth=b, threshold_scale=case["scale"], level=case["level"],
-                 min_detection_interval=case["mdi"]).fit(core.wrap_container(case, X))
+        scale = case["scale"]
+        if scale is not None:  # aim the fitted threshold just beside one of the window scores
+            probe = MW(_mk_score(case["score"]), bandwidth=b, threshold_scale=0.0, level=case["level"])
+            _, nf = core.fit_for(probe, case, X)
+            bs = core.borderline_scale(case, np.asarray(probe.transform_scores(core.wrap_container(case, X))).reshape(-1),
+                                       float(MW.get_default_threshold(nf, case["p"], b, case["level"])))
+            scale = scale if bs is None else bs
+        det = MW(_mk_score(case["score"]), bandwidth=b, threshold_scale=scale, level=case["level"],
+                 min_detection_interval=case["mdi"])
+        # fitted on the data, on a series of another length, or on an object overwritten in place afterwards
+        _, nfit = core.fit_for(det, case, X)
         thr = float(det.threshold_)
         W = lambda a: core.wrap_container(case, a)  # noqa: E731  (ndarray or DataFrame)
         # the same fitted detector (same threshold) is then applied to the reversed series, and
@@ -148,14 +157,14 @@ def impl_builtin(case):
         s_rev, cps_rev = _scores_cps(det, W(X[::-1].copy()))
         s2, cps2 = _scores_cps(det, W(X))
         if s2 != s or cps2 != cps:
-            return {"outcome": "ok", "thr": thr, "scores": s2, "cps": cps2, "scores_rev": s_rev, "cps_rev": cps_rev,
+            return {"outcome": "ok", "thr": thr, "scores": s2, "cps": cps2, "scores_rev": s_rev, "cps_rev": cps_rev, "scale": scale,
                     "tab": {}, "default_thr": 0.0, "unstable": [s, cps]}
         sc = to_change_score(_mk_score(case["score"])).fit(X)
         ts = list(range(b, n - b + 1))
         vals = sc.evaluate(np.array([(t - b, t, t + b) for t in ts])).sum(axis=1)
-        return {"outcome": "ok", "thr": thr, "scores": s, "cps": cps, "scores_rev": s_rev, "cps_rev": cps_rev,
+        return {"outcome": "ok", "thr": thr, "scores": s, "cps": cps, "scores_rev": s_rev, "cps_rev": cps_rev, "scale": scale,
                 "tab": {str(t): float(v) for t, v in zip(ts, vals)},
-                "default_thr": float(MW.get_default_threshold(n, case["p"], b, case["level"]))}
+                "default_thr": float(MW.get_default_threshold(nfit, case["p"], b, case["level"]))}
     except Exception as ex:
         return {"outcome": "other:" + type(ex).__name__, "msg": str(ex)[:200]}
 
@@ -172,7 +181,7 @@ def oracle_builtin(case, r):
     msg = oracle_core(n, b, case["mdi"], r["thr"], r["scores"], r["cps"], lambda s, k, e: tab[str(k)], exact=True)
     if msg:
         return msg
-    if case["scale"] is not None and abs(r["thr"] - case["scale"] * r["default_thr"]) > 1e-12 * (1 + abs(r["thr"])):
+    if r["scale"] is not None and abs(r["thr"] - r["scale"] * r["default_thr"]) > 1e-12 * (1 + abs(r["thr"])):
         return f"threshold_ {r['thr']} is not threshold_scale x default"
     # time reversal: scores at t map to n - t (0 < t < n); rounding-level tolerance
     big = 1 + max(abs(v) for v in r["scores"])
